@@ -72,7 +72,7 @@ class TLCResult:
 
 
 class Ctx:
-    def __init__(self, pid, tier, seed, level):
+    def __init__(self, pid, tier, seed, level, replay=None):
         self.id, self.tier, self.seed, self.level = pid, tier, seed, level
         self.t0 = time.time()
         self.work = os.path.join(VERIF, ".work", pid)
@@ -80,8 +80,9 @@ class Ctx:
         os.makedirs(self.work, exist_ok=True)
         self.replays = os.path.join(VERIF, "replays", pid)
         os.makedirs(self.replays, exist_ok=True)
+        self.replay = replay
         for f in os.listdir(self.replays):   # replay files of an earlier run of this tier are stale
-            if f.startswith(tier + "_"):
+            if f.startswith(tier + "_") and not replay:
                 os.remove(os.path.join(self.replays, f))
         self.cov = {"evaluations": 0, "distinct_nontrivial": 0, "rule": "", "samples": [],
                     "states": 0, "transitions": 0, "traces_validated_against_impl": 0}
@@ -198,7 +199,7 @@ class Ctx:
                     self.known_hit.append(k)
                 return False
         h = hashlib.sha1(key.encode()).hexdigest()[:10]
-        path = os.path.join(self.replays, "%s_%s.json" % (self.tier, h))
+        path = os.path.join(self.replays, "%s_%s.json" % ("replayed" if self.replay else self.tier, h))
         json.dump({"property": self.id, "key": key, "what": what, "replay": replay, "seed": self.seed, "tier": self.tier},
                   open(path, "w"), indent=1, default=str)
         if len(self.viol) < 50:
@@ -395,8 +396,7 @@ def main(fn, pid, level):
     ap.add_argument("--replay", default=None)
     a = ap.parse_args(sys.argv[2:])
     seed = int(os.environ.get("VERIF_SEED", "1") or 1)
-    ctx = Ctx(pid, a.tier, seed, level)
-    ctx.replay = a.replay
+    ctx = Ctx(pid, a.tier, seed, level, replay=os.path.abspath(a.replay) if a.replay else None)
     try:
         fn(ctx)
         rc = ctx.finish()
